@@ -9,7 +9,8 @@ from c06 import render_expr, ROLESETS
 
 GEN = ['GPolicy.v', 'GChecks.v', 'GParser.v']
 
-PAIRS = [('role:new', 'role:old'), ('role:r0 or role:r1', 'role:r2'), ('role:r0 and not role:r1', 'role:r1'),
+PAIRS = [('!', ''), ('role:new', ''), ('', 'role:old'),       # the empty check string is a check like any other: always allow
+         ('role:new', 'role:old'), ('role:r0 or role:r1', 'role:r2'), ('role:r0 and not role:r1', 'role:r1'),
          ('@', '!'), ('rule:helper', 'role:r2'), ('not role:r0', 'role:r0 and role:r1')]
 ROLES = ['r0', 'r1', 'r2', 'new', 'old', 'ovr', 'ovr_old']
 
@@ -64,6 +65,8 @@ def do_job(root, row, new_cs, old_cs, tier):
     elif where == 'dir':
         fs.write_main({'unrelated': '@'}, 'json')
         fs.write('policy.d', 'ovr.yaml', files, 'yaml')
+    elif where == 'dironly':
+        fs.write('policy.d', 'ovr.yaml', files, 'yaml')       # no policy file at all
     else:
         # the same names overridden in two layered files with different values: the later
         # layer (the directory) must govern, also in the record of file rules
@@ -95,7 +98,7 @@ def do_job(root, row, new_cs, old_cs, tier):
     gov = statement(renamed, same_str, enforce_new, new_ovr and True, old_ovr, new_cs, old_cs, ovr_old_value)
     ref_rules = {'helper': 'role:r1', new_name + ':forced': 'role:r2'}
     if isinstance(gov, tuple):
-        ref_rules['x'] = '(%s) or (%s)' % (gov[1], gov[2])
+        ref_rules['x'] = '(%s) or (%s)' % (gov[1] or '@', gov[2] or '@')
     else:
         ref_rules['x'] = gov
     pe = plain_enforcer()
@@ -116,6 +119,23 @@ def do_job(root, row, new_cs, old_cs, tier):
                            'expected': want, 'observed': got}))
             break
     key = (repr(row) + new_cs + '|' + old_cs) if len(set(decs)) > 1 else None
+    # the table is applied afresh on every load: take the old-name override out of the directory file again
+    if where in ('dir', 'dironly') and renamed and old_ovr != 'absent':
+        files2 = {k: v for k, v in files.items() if k != old_name}
+        fs.write('policy.d', 'ovr.yaml', files2, 'yaml')
+        fs.sync()
+        e.load_rules()
+        obs2 = observe(e)
+        spec2 = run_batch([[11, [enforce_new, enc_defaults(defaults), 1], fs.wire(), [S(n) for n in names]]])[0]
+        for n, sp in zip(names, spec2):
+            want_s = unS(sp[0]) if sp else None
+            got_s = dict(obs2['rules']).get(n)
+            if want_s != got_s:
+                viols.append(('table-spec:after-removal', 'row %r strings %r, after the old-name override was removed from '
+                              'the directory file: %s is %r, extracted spec says %r' % (row, (new_cs, old_cs), n, got_s, want_s),
+                              {'kind': 'failing-input', 'suite': 'spec-c11',
+                               'input': {'row': list(row), 'new': new_cs, 'old': old_cs}, 'expected': want_s,
+                               'observed': got_s}))
     return viols, corr, key
 
 
@@ -134,7 +154,7 @@ def all_rows():
     rows = []
     for renamed, same_str, enforce_new, new_ovr, old_ovr, where, shared in itertools.product(
             [True, False], [True, False], [True, False], [False, True], ['absent', 'arbitrary', 'alias', 'prefixref'],
-            ['main', 'dir', 'both'], [0, 1, 2]):
+            ['main', 'dir', 'both', 'dironly'], [0, 1, 2]):
         if not renamed and old_ovr != 'absent':
             continue        # same-name deprecation: an "old name" override IS a new-name override
         if shared == 2 and not (renamed and old_ovr == 'absent'):
@@ -177,7 +197,7 @@ def run(run, binfo):
                        'input': c, 'model': m, 'observed': o, 'count': len(bad_corr)})
     run.rule = ('the whole configuration product (renamed/same-name x same/different check strings x enforce_new_defaults x '
                 'new-name override x old-name override absent/arbitrary/alias/reference to a rule whose name extends the new '
-                'name x override in main file, policy directory or both layered x predecessor shared with a second policy / '
+                'name x override in main file, policy directory, both layered or a directory with no policy file (there also after the old-name override is removed again) x predecessor shared with a second policy / '
                 'itself a registered same-name-deprecated policy: %d configurations) x %d check-string pairs; effective '
                 'check vs the extracted documented table (spec_rule), decisions over role subsets vs the statement read '
                 'directly, model vs implementation. non-trivial = rows whose decision is not constant' % (len(rows), len(pairs)))
